@@ -1085,7 +1085,8 @@ func c42runWorld(r *vh.Run, w *c42world, replay bool, rcp *c42case, idxp *int, s
 						longCall(it, en)
 					}
 				}
-				follow := procOnly && !clean
+				// (restart variant: a restarted process has the configuration of its command line again, nothing to see)
+				follow := procOnly && !clean && !restart
 				if clean && restart {
 					mode.apply() // (a restarted node has the configuration of its command line)
 					if err := l.Reopen(); err != nil {
